@@ -14,10 +14,11 @@ RULE = ('profile cases (start-only, shutdown-only, both, heat variants, ramp_fre
         "stream 'start-costs-vary' (every 10th case): plants / CHPs with start costs varying in time and zero in some steps of the window (interval dict covering part of the window or with zero values, price key, array), mostly nothing else calling for start variables, block prices that make cycling attractive; oracle chp.start_costs on every solved portfolio with start costs: in a step with an off->on transition (on variables, without them read from the dispatch) the plant's cash flow holds at least the start costs of that step beyond the costs of its other variables (lower bound only: charging without a transition is known finding F-06b); "
         "probe stream (40 quick / 240 thorough cases apart from the normal streams): plants / CHPs with a start ramp profile and a general ramp, inside their start ramp at the beginning of the horizon or off before; oracle chp.profile_ramp pins the dispatch that follows the (remaining) start profile and then stays constant in the real asset problem: admissible under the statement whatever the ramp (control: the same start one step later); "
         "stream 'regrid' (160 quick / 960 thorough cases): ONE Plant / CHPAsset / CHPAsset_with_min_load_costs OBJECT taken through a sequence of 2-4 time grids that differ in frequency with the same main time unit (hourly then 15 min, 4-hourly then hourly, back again, ...), in the main time unit with the same frequency, in both, or only in the horizon, optionally going through setup_optim_problem(costs_only=True), Portfolio.create_cost_samples, Portfolio.setup_optim_problem, set_timegrid, to_json, a JSON round trip or a deep copy in between; every set-up of the sequence is judged ON ITS OWN GRID like a fresh case: exact rows of the shared object vs the model, oracle chp.pattern (all 2^T patterns pinned in the real rows of the shared object vs specification / automaton with the durations converted to steps of that grid), chp.first_ramp, chp.start_flag, and for an optimised stage the portfolio oracles; "
+        "stream 'window-tables' (120 quick / 720 thorough cases): portfolio runs with a plant / CHP whose OWN window starts strictly after the grid start, ends strictly before the grid end, or both (placements drawn from the seed; the other bound absent, equal to the grid's or beyond the horizon), mostly with fuel node, consumption_if_on, start_fuel and start costs in all parameter forms, mostly a positive minimum capacity, in part block prices relative to the window that make the unit cycle; oracle chp.tables on EVERY solved portfolio (all streams) states the last clauses of C06 on the OUTPUT TABLES of io.extract_output (dispatch per node and step, internal variables bool_on / bool_start as reported) over every step of the optimisation grid, nothing read from x or the mapping: reported off or outside the own window => power, heat and fuel zero and no flag; reported on => virtual output within [min_cap, max_cap] of the step; fuel node dispatch per step = -(virtual output / efficiency + consumption_if_on x reported on + start_fuel x reported start (without start variables: off->on transition of the reported state)); a start is reported at every off->on transition of the reported state (a start reported without transition: known finding F-06b, judged by chp.start_flag); the x-based portfolio oracles place the asset's variables with the asset's own window computed on a fresh time grid (inside a portfolio the shared Timegrid object carries the window of the asset set up last); "
         "oracle chp.commitment on every solved portfolio with on variables and without ramp profiles (all streams): the optimised on/off pattern satisfies the run-length specification with minimum runtime / downtime / initial state in steps of the grid of the case; "
         'non-trivial = case with on-variables or a solved portfolio; distinct by case hash')
-ASSUMPTIONS = ['pattern feasibility decided by HiGHS MILP on the real rows', "stream 'regrid': the asset's parameters are given in grid-independent forms (scalars, price keys, interval data reaching beyond every horizon); each stage is judged against the statement on the stage's own grid (durations in main time units of that grid, rounded up to steps)"]
-EXPLANATION = 'rows-iff-spec and spec-iff-automaton theorems (unbounded in T) about the model of the generated rows; exact row correspondence; pattern and portfolio oracles on the real code, also for one object set up on a sequence of grids of different frequency / main time unit (each set-up judged on its own grid)'
+ASSUMPTIONS = ['pattern feasibility decided by HiGHS MILP on the real rows', "oracle chp.tables: an entry missing in the internal-variables table (None / NaN) counts as 0 = off / no start; with start / shutdown ramp profiles only its fuel clause and the outside-the-window clause are judged", "stream 'regrid': the asset's parameters are given in grid-independent forms (scalars, price keys, interval data reaching beyond every horizon); each stage is judged against the statement on the stage's own grid (durations in main time units of that grid, rounded up to steps)"]
+EXPLANATION = 'rows-iff-spec and spec-iff-automaton theorems (unbounded in T) about the model of the generated rows; exact row correspondence; pattern and portfolio oracles on the real code (the portfolio oracle also on the output tables of extract_output over the whole grid, with plants whose own window lies inside the horizon), also for one object set up on a sequence of grids of different frequency / main time unit (each set-up judged on its own grid)'
 
 
 # TODO switch (coordinator): the statement-level probe chp.profile_ramp reproduces two behaviours of the unchanged code that
@@ -47,6 +48,11 @@ def scenarios(seed, tier):
         c = RG.gen_case(random.Random(rnd.getrandbits(48)), tmax=7 if tier == 'quick' else 9)
         c['_tier'] = tier
         yield 'regrid%d' % i, c
+    rnd = random.Random(seed * 7919 + 60613)
+    for i in range(120 if tier == 'quick' else 720):
+        c = CH.gen_focus_window_tables(random.Random(rnd.getrandbits(48)), tmax=8 if tier == 'quick' else 10)
+        c['_tier'] = tier
+        yield 'wintab%d' % i, c
     if PROBE_PROFILE_RAMP:
         rnd = random.Random(seed * 7919 + 606)
         for i in range(40 if tier == 'quick' else 240):
